@@ -132,6 +132,10 @@ func (in *Interp) info(fn *ssa.Function) *fnInfo {
 		fi.inScope = strings.HasPrefix(root.Pkg.Pkg.Path(), in.ScopePrefix)
 	} else if o := root.Origin(); o != nil && o.Pkg != nil {
 		fi.inScope = strings.HasPrefix(o.Pkg.Pkg.Path(), in.ScopePrefix)
+	} else if root.Synthetic != "" {
+		// wrappers, bound-method closures and thunks only forward to a declared method,
+		// which is subject to the scope check itself
+		fi.inScope = true
 	}
 	if root.Pos().IsValid() {
 		base := filepath.Base(in.Prog.Fset.Position(root.Pos()).Filename)
